@@ -206,6 +206,12 @@ func (c *c17) RunCase(w *core.Worker, idx int, seed uint64, res *core.CaseResult
 			ifn := []string{"t0", "t1", "r0", "r1", "b0"}[rng.Intn(5)]
 			vals[fmt.Sprintf("/if[name=%s]/unit[id=%d]/chk", ifn, 100+u)] = "c"
 		}
+		// ... and a must over a leaf nobody sets: its schema is first asked for by the validators, concurrently
+		nChk2 := rng.Intn(30)
+		for u := 0; u < nChk2; u++ {
+			ifn := []string{"t0", "t1", "r0", "r1", "b0"}[rng.Intn(5)]
+			vals[fmt.Sprintf("/if[name=%s]/unit[id=%d]/chk2", ifn, 200+u)] = "c"
+		}
 		if rng.Chance(1, 4) {
 			vals["/if[name=t0]/enabled"] = "false"
 		}
